@@ -1,4 +1,4 @@
 SPECIFICATION SpecS
-CONSTANTS Async = FALSE  MaxChunk = 12
+CONSTANTS Async = FALSE  MaxChunk = 12  Rich = TRUE
 INVARIANTS Safe AtEnd EmitSchedule
 CHECK_DEADLOCK FALSE
